@@ -21,7 +21,7 @@ ASSUMPTIONS = [
 ]
 
 KIND_OPS = ["const", "query", "add", "alias", "lowest", "draw", "accumulate", "pool", "pool_index", "pool_slice", "matmul_p",
-            "flatten", "roller", "annotate", "setitem", "delitem", "rejected", "query", "query", "query"]
+            "flatten", "roller", "annotate", "setitem", "delitem", "rejected", "query", "query", "query", "select"]
 
 
 def gen_cases(rng, tier):
@@ -42,8 +42,10 @@ def gen_cases(rng, tier):
                 ops.append(["pool", r[:rng.randint(1, 3)]])
             elif k == "roller":
                 ops.append(["roller", r[:rng.randint(1, 2)], rng.randint(0, 5)])
+            elif k == "select":
+                ops.append(["select", r[0], rng.choice(["tuple", "list", "iterator", "generator"]), rng.randint(0, 5)])
             elif k == "query":
-                ops.append(["query", rng.choice(["h_which", "rwc", "order", "eq", "hash", "foreach", "explode", "substitute",
+                ops.append(["query", rng.choice(["lookup", "lookup", "h_which", "rwc", "order", "eq", "hash", "foreach", "explode", "substitute",
                                                  "roll", "rroll", "scalar", "cmp", "zero_fill", "zero_fill", "stats", "format", "annotate_eq"]), r[0], r[1]])
             else:
                 ops.append([k] + r[:3])
@@ -160,6 +162,26 @@ def impl_run(case):
                 else:
                     h = pick("H", op[1][0])
                     res = ("R", R.from_value(pop[h][1], annotation=op[2]))
+            elif k == "select":
+                # a selection roller whose selector arrives as a caller-owned list or a one-shot iterable; the
+                # caller's list is emptied right after construction (the roller must have its own copy)
+                r = pick("R", op[1])
+                if r is None:
+                    continue
+                rop = ["roller", [r], op[3]]
+                lst = [0, -1, slice(None)]
+                given = {"tuple": tuple(lst), "list": lst, "iterator": iter(lst), "generator": (x for x in list(lst))}[op[2]]
+                srcs = [pop[r][1]]
+                res = ("R", R.select_from_sources_iterable(given, srcs if op[3] % 2 else iter(srcs), annotation=op[3]))
+                idx = add(res[0], res[1])
+                if op[2] == "list":
+                    lst.clear()
+                srcs.clear()
+                res[1].roll()
+                resolved.append(rop)
+                results.append({"ok": idx})
+                check(step)
+                continue
             elif k == "annotate":
                 r = pick("R", op[1])
                 if r is None:
@@ -190,7 +212,22 @@ def impl_run(case):
                 pi = pick("P", op[3])
                 p = pop[pi][1] if pi is not None else P(h, h)
                 ri = pick("R", op[3])
-                if q == "h_which":
+                if q == "lookup":
+                    # read-only lookups of outcomes the histogram does not have
+                    for absent in (77, -77, Fraction(1, 3), 77.5):
+                        if h.get(absent, "D") != "D" or (absent in h) or h.get(absent) is not None:
+                            problems.append(f"lookup of an absent outcome answered as if present at step {step}")
+                        try:
+                            h[absent]
+                            problems.append(f"h[absent] did not raise KeyError at step {step}")
+                        except KeyError:
+                            pass
+                        h.exactly_k_times_in_n(absent, 2, 1), p.appearances_in_rolls(absent)
+                        (h + 1).get(absent), (h + 1).exactly_k_times_in_n(absent, 2, 0)
+                    list(h.counts()), list(h.outcomes()), dict(h), list(h.keys()), list(h.values())
+                    for d in p:
+                        d.get(77), d.get(-77, 0)
+                elif q == "h_which":
                     p.h(0), p.h(-1), p.h(slice(None)), p.h()
                 elif q == "rwc":
                     list(p.rolls_with_counts()), list(p.rolls_with_counts(0))
